@@ -1,1 +1,1106 @@
-fn main() {}
+//! ls-check: orchestrator and oracles of LS-sim (C29, C30).  See /verif/DESIGN.md §3.
+//!
+//! The executor (the real `parol-ls` built with `--cfg parol_verif`, driver in
+//! /verif/ls-sim/driver.rs) knows nothing about what is right; this program generates
+//! the run specs from the seed, evaluates the oracles on the returned records,
+//! minimises failures and writes replay files and evidence.
+
+mod exec;
+mod workload;
+
+use exec::Pool;
+use serde_json::{json, Value};
+use simcore::{Evidence, Fnv, Rng, Tier};
+use std::collections::{BTreeMap, BTreeSet};
+use std::path::{Path, PathBuf};
+use workload::{Corpus, C29Config, C30Config};
+
+const ENGINE_C29: u64 = 0x29;
+const ENGINE_C30: u64 = 0x30;
+
+fn harness_error(msg: &str) -> ! {
+    println!("HARNESS-ERROR: {msg}");
+    std::process::exit(simcore::EXIT_HARNESS);
+}
+
+#[derive(Clone, Debug)]
+struct Finding {
+    /// signature class (used for minimisation and the known-findings file)
+    class: String,
+    /// call site / input key inside the class
+    key: String,
+    detail: String,
+}
+
+// ---------------------------------------------------------------------------
+// classification of the corpus (reference behaviour of single texts)
+// ---------------------------------------------------------------------------
+
+fn reference_spec(uri: &str, version: i64, text: &str, max_k: u64, hash_seed: u64, init: &Value) -> Value {
+    json!({
+        "run": "ref",
+        "hash_seed": hash_seed,
+        "max_k": max_k,
+        "init": init,
+        "ops": [{"t": "open", "uri": uri, "version": version, "text": text}],
+        "sched": {"mode": "canonical"},
+    })
+}
+
+fn publishes_for<'a>(rec: &'a Value, uri: &str) -> Vec<&'a Value> {
+    rec["out"]
+        .as_array()
+        .map(|a| {
+            a.iter()
+                .filter(|o| o["kind"] == "publish" && o["uri"].as_str() == Some(uri))
+                .collect()
+        })
+        .unwrap_or_default()
+}
+
+fn classify(pool: &Pool, corpus: &mut Corpus) {
+    let mut specs = vec![];
+    let mut keys = vec![];
+    for (i, t) in corpus.texts.iter().enumerate() {
+        for k in 1..=3u64 {
+            let text = workload::instantiate(t, 0);
+            specs.push(reference_spec(&workload::uri(0), 1, &text, k, 1, &json!({"capabilities": {}})));
+            keys.push((i, k));
+        }
+    }
+    let recs = pool.run(&specs);
+    for ((i, k), rec) in keys.into_iter().zip(recs) {
+        let u = workload::uri(0);
+        let pubs = publishes_for(&rec, &u);
+        let main_ok = rec["main"]["exit"] == "ok";
+        let class = if !main_ok || rec.get("harness_error").is_some() {
+            "crash"
+        } else {
+            let n_threads = rec["threads"].as_array().map(|a| a.len()).unwrap_or(0);
+            let last = pubs.last();
+            let nonempty = last
+                .and_then(|p| p["diagnostics"].as_array())
+                .map(|a| !a.is_empty())
+                .unwrap_or(false);
+            if n_threads == 0 {
+                if nonempty { "sync_error" } else { "ok" }
+            } else if !nonempty {
+                "ok"
+            } else if last.map(|p| p["by"] != 0).unwrap_or(false) {
+                let sev = last.unwrap()["diagnostics"][0]["severity"].as_u64().unwrap_or(1);
+                if sev >= 2 { "bg_warn" } else { "bg_error" }
+            } else {
+                "sync_error"
+            }
+        };
+        corpus.classes.insert(
+            (i, k),
+            workload::ClassInfo {
+                class: class.to_string(),
+                diagnostics: pubs.last().map(|p| p["diagnostics"].clone()).unwrap_or(Value::Null),
+            },
+        );
+    }
+}
+
+// ---------------------------------------------------------------------------
+// C29 oracle
+// ---------------------------------------------------------------------------
+
+fn canon_diags(d: &Value) -> Vec<String> {
+    let mut v: Vec<String> = d
+        .as_array()
+        .map(|a| {
+            a.iter()
+                .map(|x| {
+                    let mut x = x.clone();
+                    if let Some(ri) = x.get_mut("relatedInformation").and_then(|r| r.as_array_mut()) {
+                        ri.sort_by_key(|r| r.to_string());
+                    }
+                    x.to_string()
+                })
+                .collect()
+        })
+        .unwrap_or_default();
+    v.sort();
+    v
+}
+
+/// final (op index, version, text) per URI that is still open at the end
+fn final_edits(spec: &Value) -> BTreeMap<String, (usize, i64, String)> {
+    let mut m = BTreeMap::new();
+    for (i, op) in spec["ops"].as_array().into_iter().flatten().enumerate() {
+        let u = op["uri"].as_str().unwrap_or("").to_string();
+        match op["t"].as_str() {
+            Some("open") | Some("change") => {
+                m.insert(u, (i, op["version"].as_i64().unwrap_or(0), op["text"].as_str().unwrap_or("").to_string()));
+            }
+            Some("close") => {
+                m.remove(&u);
+            }
+            _ => {}
+        }
+    }
+    m
+}
+
+fn ref_key(uri: &str, version: i64, text: &str, spec: &Value) -> String {
+    format!(
+        "{uri}|{version}|{}|{}|{}|{}",
+        simcore::fnv_hex(text.as_bytes()),
+        spec["max_k"],
+        spec["hash_seed"],
+        simcore::fnv_hex(spec["init"].to_string().as_bytes())
+    )
+}
+
+struct C29Stats {
+    uri_checks: u64,
+    reference_crash: u64,
+    main_crash: u64,
+    stale_completion: u64,
+    fast_completion: u64,
+    overlap2: u64,
+    bg_crash: u64,
+    bg_crash_final: u64,
+    bg_panic: u64,
+    signatures: BTreeSet<String>,
+    nontrivial_signatures: BTreeSet<String>,
+}
+
+fn check_c29(spec: &Value, rec: &Value, refs: &BTreeMap<String, Value>, stats: Option<&mut C29Stats>) -> Vec<Finding> {
+    let mut findings = vec![];
+    if rec["deadlock"].as_bool() == Some(true) {
+        findings.push(Finding {
+            class: "deadlock".into(),
+            key: String::new(),
+            detail: "all live server threads blocked on modelled locks: background analyses never finish".into(),
+        });
+        return findings;
+    }
+    let main_ok = rec["main"]["exit"] == "ok";
+    let ops: Vec<Value> = spec["ops"].as_array().cloned().unwrap_or_default();
+    let finals = final_edits(spec);
+    let out: Vec<Value> = rec["out"].as_array().cloned().unwrap_or_default();
+    let threads: Vec<Value> = rec["threads"].as_array().cloned().unwrap_or_default();
+
+    // probes / signatures
+    let mut local = C29Stats {
+        uri_checks: 0,
+        reference_crash: 0,
+        main_crash: 0,
+        stale_completion: 0,
+        fast_completion: 0,
+        overlap2: 0,
+        bg_crash: 0,
+        bg_crash_final: 0,
+        bg_panic: 0,
+        signatures: BTreeSet::new(),
+        nontrivial_signatures: BTreeSet::new(),
+    };
+    if !main_ok {
+        local.main_crash += 1;
+    }
+    if rec["max_live_bg"].as_u64().unwrap_or(0) >= 2 {
+        local.overlap2 += 1;
+    }
+    // next edit of the same uri after op i
+    let next_edit_of = |i: usize| -> Option<usize> {
+        let u = ops[i]["uri"].as_str()?;
+        ops.iter().enumerate().skip(i + 1).find(|(_, o)| {
+            o["uri"].as_str() == Some(u) && matches!(o["t"].as_str(), Some("change") | Some("close"))
+        }).map(|(j, _)| j)
+    };
+    let mut sig = String::new();
+    let mut nontrivial = false;
+    for o in &out {
+        if o["kind"] != "publish" {
+            continue;
+        }
+        let by = o["by"].as_u64().unwrap_or(0);
+        let empty = o["diagnostics"].as_array().map(|a| a.is_empty()).unwrap_or(true);
+        let u = o["uri"].as_str().unwrap_or("");
+        let doc = u.trim_start_matches("file:///sim/doc").trim_end_matches(".par");
+        let ver = o["version"].as_i64().unwrap_or(-1);
+        // rank of the version among the edits of this uri
+        let rank = ops.iter().filter(|p| p["uri"].as_str() == Some(u) && p["version"].as_i64().map(|v| v <= ver).unwrap_or(false) && matches!(p["t"].as_str(), Some("open") | Some("change"))).count();
+        sig.push_str(&format!("{}{}v{}{};", if by == 0 { 'M' } else { 'B' }, doc, rank, if empty { 'o' } else { 'x' }));
+        if by != 0 {
+            if let Some(t) = threads.iter().find(|t| t["id"].as_u64() == Some(by)) {
+                let sop = t["spawned_by_op"].as_i64().unwrap_or(-1);
+                if sop >= 0 {
+                    let after = o["after_msgs"].as_u64().unwrap_or(0) as usize;
+                    if let Some(ne) = next_edit_of(sop as usize) {
+                        if after > ne {
+                            local.stale_completion += 1;
+                            nontrivial = true;
+                        }
+                    }
+                    // fast: published before the main thread's own publish of the same version
+                    let my_step = o["step"].as_u64().unwrap_or(0);
+                    let main_pub_later = out.iter().any(|m| {
+                        m["kind"] == "publish" && m["by"] == 0 && m["uri"] == o["uri"] && m["version"] == o["version"]
+                            && m["step"].as_u64().unwrap_or(0) > my_step
+                    });
+                    if main_pub_later {
+                        local.fast_completion += 1;
+                        nontrivial = true;
+                    }
+                }
+            }
+        }
+    }
+    for t in &threads {
+        match t["exit"].as_str() {
+            Some("injected_crash") => local.bg_crash += 1,
+            Some("ok") => {}
+            _ => local.bg_panic += 1,
+        }
+    }
+    local.signatures.insert(sig.clone());
+    if nontrivial {
+        local.nontrivial_signatures.insert(sig);
+    }
+
+    if main_ok {
+        for (uri, (op_idx, version, text)) in &finals {
+            let rk = ref_key(uri, *version, text, spec);
+            let Some(reference) = refs.get(&rk) else { continue };
+            if reference["main"]["exit"] != "ok" || reference.get("harness_error").is_some() {
+                local.reference_crash += 1;
+                continue;
+            }
+            local.uri_checks += 1;
+            let ref_pubs = publishes_for(reference, uri);
+            let pubs = publishes_for(rec, uri);
+            let Some(ref_last) = ref_pubs.last() else { continue };
+            let Some(last) = pubs.last() else {
+                findings.push(Finding {
+                    class: "no-publish".into(),
+                    key: String::new(),
+                    detail: format!("{uri}: nothing was published although the reference run publishes"),
+                });
+                continue;
+            };
+            let want = canon_diags(&ref_last["diagnostics"]);
+            let got = canon_diags(&last["diagnostics"]);
+            let got_version = last["version"].as_i64().unwrap_or(-1);
+            // narrow relaxation: the analysis thread of the final edit was crashed by the simulator
+            let crashed_final = threads.iter().any(|t| {
+                t["exit"] == "injected_crash" && t["spawned_by_op"].as_i64() == Some(*op_idx as i64)
+            });
+            if crashed_final {
+                local.bg_crash_final += 1;
+            }
+            let mut ok = got_version == *version && got == want;
+            if !ok && crashed_final && got_version == *version {
+                if let Some(main_pub) = ref_pubs.iter().find(|p| p["by"] == 0) {
+                    ok = got == canon_diags(&main_pub["diagnostics"]);
+                }
+            }
+            if ok {
+                continue;
+            }
+            let class = if got_version != *version {
+                "stale-version-last"
+            } else if last["by"] == 0
+                && pubs.iter().any(|p| p["by"] != 0 && p["version"].as_i64() == Some(*version))
+            {
+                "final-version-overwritten"
+            } else {
+                "wrong-content"
+            };
+            findings.push(Finding {
+                class: class.into(),
+                key: String::new(),
+                detail: format!(
+                    "{uri}: final edit is op {op_idx} (version {version}); last publish has version {got_version} by thread {} with {} diagnostics, reference has {}",
+                    last["by"], got.len(), want.len()
+                ),
+            });
+        }
+    }
+    if let Some(s) = stats {
+        s.uri_checks += local.uri_checks;
+        s.reference_crash += local.reference_crash;
+        s.main_crash += local.main_crash;
+        s.stale_completion += local.stale_completion;
+        s.fast_completion += local.fast_completion;
+        s.overlap2 += local.overlap2;
+        s.bg_crash += local.bg_crash;
+        s.bg_crash_final += local.bg_crash_final;
+        s.bg_panic += local.bg_panic;
+        s.signatures.extend(local.signatures);
+        s.nontrivial_signatures.extend(local.nontrivial_signatures);
+    }
+    findings
+}
+
+fn needed_refs(spec: &Value) -> Vec<(String, Value)> {
+    final_edits(spec)
+        .into_iter()
+        .map(|(uri, (_, version, text))| {
+            (
+                ref_key(&uri, version, &text, spec),
+                reference_spec(&uri, version, &text, spec["max_k"].as_u64().unwrap_or(3), spec["hash_seed"].as_u64().unwrap_or(1), &spec["init"]),
+            )
+        })
+        .collect()
+}
+
+// ---------------------------------------------------------------------------
+// C30 oracle
+// ---------------------------------------------------------------------------
+
+fn panic_location(exit: &str) -> String {
+    // "panic:<msg> @ <file>:<line>"
+    match exit.rsplit_once(" @ ") {
+        Some((_, loc)) => {
+            let loc = loc.trim();
+            // strip the path prefix up to the crate directory
+            match loc.find("crates/") {
+                Some(i) => loc[i..].to_string(),
+                None => loc.to_string(),
+            }
+        }
+        None => "unknown".into(),
+    }
+}
+
+struct C30Stats {
+    requests: u64,
+    responses_ok: u64,
+    notification_panics: BTreeMap<String, u64>,
+    cells: BTreeSet<String>,
+    result_kinds: BTreeMap<String, u64>,
+}
+
+fn check_c30(spec: &Value, rec: &Value, stats: Option<&mut C30Stats>) -> Vec<Finding> {
+    let mut findings = vec![];
+    let ops: Vec<Value> = spec["ops"].as_array().cloned().unwrap_or_default();
+    let exit = rec["main"]["exit"].as_str().unwrap_or("");
+    let seen = rec["main"]["msgs_seen"].as_u64().unwrap_or(0) as usize;
+    let mut local_np: BTreeMap<String, u64> = BTreeMap::new();
+    let mut crashed_at: Option<usize> = None;
+    if rec["deadlock"].as_bool() == Some(true) {
+        findings.push(Finding { class: "deadlock".into(), key: String::new(), detail: "server threads deadlocked".into() });
+        return findings;
+    }
+    if exit != "ok" {
+        let idx = seen.saturating_sub(1);
+        crashed_at = Some(idx);
+        let op = ops.get(idx).cloned().unwrap_or(Value::Null);
+        if op["t"] == "req" {
+            let method = op["method"].as_str().unwrap_or("?");
+            if exit.starts_with("panic:") {
+                findings.push(Finding {
+                    class: "request-panic".into(),
+                    key: format!("{}@{}", method.trim_start_matches("textDocument/"), panic_location(exit)),
+                    detail: format!("op {idx} {method}: {}", exit.chars().take(300).collect::<String>()),
+                });
+            } else {
+                findings.push(Finding {
+                    class: "request-error-exit".into(),
+                    key: method.trim_start_matches("textDocument/").to_string(),
+                    detail: format!("op {idx} {method}: main loop ended with {exit}"),
+                });
+            }
+        } else {
+            *local_np
+                .entry(format!("{}@{}", op["t"].as_str().unwrap_or("?"), panic_location(exit)))
+                .or_default() += 1;
+        }
+    }
+    let out: Vec<Value> = rec["out"].as_array().cloned().unwrap_or_default();
+    let mut n_req = 0;
+    let mut n_ok = 0;
+    let mut cells = BTreeSet::new();
+    let mut kinds: BTreeMap<String, u64> = BTreeMap::new();
+    for (i, op) in ops.iter().enumerate() {
+        if op["t"] != "req" {
+            continue;
+        }
+        if let Some(c) = crashed_at {
+            if i >= c {
+                continue; // not handled (the crash itself was reported above)
+            }
+        }
+        n_req += 1;
+        let id = &op["id"];
+        let resps: Vec<&Value> = out.iter().filter(|o| o["kind"] == "response" && &o["id"] == id).collect();
+        let method = op["method"].as_str().unwrap_or("?").trim_start_matches("textDocument/");
+        if resps.len() != 1 {
+            findings.push(Finding {
+                class: "response-count".into(),
+                key: method.to_string(),
+                detail: format!("op {i} {method} id {id}: {} responses", resps.len()),
+            });
+            continue;
+        }
+        if !resps[0]["error"].is_null() {
+            findings.push(Finding {
+                class: "error-response".into(),
+                key: method.to_string(),
+                detail: format!("op {i} {method}: {}", resps[0]["error"]),
+            });
+            continue;
+        }
+        n_ok += 1;
+        cells.insert(format!(
+            "{method}|{}|{}",
+            op["tclass"].as_str().unwrap_or("?"),
+            op["pclass"].as_str().unwrap_or("?")
+        ));
+        *kinds
+            .entry(format!("{method}:{}", resps[0]["result_kind"].as_str().unwrap_or("?")))
+            .or_default() += 1;
+    }
+    if let Some(s) = stats {
+        s.requests += n_req;
+        s.responses_ok += n_ok;
+        for (k, v) in local_np {
+            *s.notification_panics.entry(k).or_default() += v;
+        }
+        s.cells.extend(cells);
+        for (k, v) in kinds {
+            *s.result_kinds.entry(k).or_default() += v;
+        }
+    }
+    findings
+}
+
+// ---------------------------------------------------------------------------
+// evaluation of a spec under one property (used by search, minimisation, replay)
+// ---------------------------------------------------------------------------
+
+struct Ctx<'a> {
+    pool: &'a Pool,
+    property: String,
+}
+
+impl Ctx<'_> {
+    /// Runs the specs (plus the reference runs C29 needs) and returns (record, findings) each.
+    fn evaluate(&self, specs: &[Value]) -> Vec<(Value, Vec<Finding>)> {
+        let recs = self.pool.run(specs);
+        if self.property == "C29" {
+            let mut refs: BTreeMap<String, Value> = BTreeMap::new();
+            let mut ref_specs = vec![];
+            let mut ref_keys = vec![];
+            for s in specs {
+                for (k, rs) in needed_refs(s) {
+                    if !refs.contains_key(&k) {
+                        refs.insert(k.clone(), Value::Null);
+                        ref_keys.push(k);
+                        ref_specs.push(rs);
+                    }
+                }
+            }
+            let ref_recs = self.pool.run(&ref_specs);
+            for (k, r) in ref_keys.into_iter().zip(ref_recs) {
+                refs.insert(k, r);
+            }
+            specs
+                .iter()
+                .zip(recs)
+                .map(|(s, r)| {
+                    let f = check_c29(s, &r, &refs, None);
+                    (r, f)
+                })
+                .collect()
+        } else {
+            specs
+                .iter()
+                .zip(recs)
+                .map(|(s, r)| {
+                    let f = check_c30(s, &r, None);
+                    (r, f)
+                })
+                .collect()
+        }
+    }
+}
+
+/// Keep only protocol-conforming histories after ops were removed: nothing for a URI before
+/// its open / after its close, an open only once.
+fn repair_ops(ops: &[Value]) -> Vec<Value> {
+    let mut open: BTreeSet<String> = BTreeSet::new();
+    let mut out = vec![];
+    for op in ops {
+        let u = op["uri"].as_str().map(|s| s.to_string()).or_else(|| {
+            op["params"]["textDocument"]["uri"].as_str().map(|s| s.to_string())
+        });
+        match (op["t"].as_str(), u) {
+            (Some("open"), Some(u)) => {
+                if open.insert(u) {
+                    out.push(op.clone());
+                }
+            }
+            (Some("change"), Some(u)) => {
+                if open.contains(&u) {
+                    out.push(op.clone());
+                } else {
+                    // a change whose open was removed becomes the open
+                    let mut o = op.clone();
+                    o["t"] = json!("open");
+                    if let Some(m) = o.as_object_mut() {
+                        m.remove("changes");
+                    }
+                    open.insert(u);
+                    out.push(o);
+                }
+            }
+            (Some("close"), Some(u)) => {
+                if open.remove(&u) {
+                    out.push(op.clone());
+                }
+            }
+            (Some("req"), Some(u)) => {
+                if open.contains(&u) {
+                    out.push(op.clone());
+                }
+            }
+            _ => out.push(op.clone()),
+        }
+    }
+    out
+}
+
+fn schedules_to_try(base_seed: u64, n: usize) -> Vec<Value> {
+    let mut v = vec![json!({"mode": "canonical"})];
+    let strategies = ["uniform", "sticky", "timed", "pct"];
+    for i in 0..n {
+        v.push(json!({
+            "mode": "seed",
+            "seed": simcore::mix(&[base_seed, i as u64]) >> 1,
+            "strategy": strategies[i % strategies.len()],
+            "bg_crash_permille": 0,
+            "pct_depth": 1 + (i % 3),
+            "mean_gap_us": if i % 2 == 0 { 1_000 } else { 150_000 },
+        }));
+    }
+    v
+}
+
+/// Delta debugging over the operation list; every candidate is retried under the canonical
+/// and a number of freshly seeded schedules.  Returns the minimised spec with an explicit
+/// schedule, its record and finding.
+fn minimise(ctx: &Ctx, spec: &Value, rec: &Value, finding: &Finding) -> (Value, Value, Finding) {
+    let class = finding.class.clone();
+    let key = finding.key.clone();
+    let ops: Vec<Value> = spec["ops"].as_array().cloned().unwrap_or_default();
+    let mut best: (Value, Value, Finding) = (explicit_spec(spec, rec), rec.clone(), finding.clone());
+    let mut budget = 400usize;
+    let try_ops = |cand_ops: &[Value], best: &mut (Value, Value, Finding), budget: &mut usize| -> bool {
+        if *budget == 0 {
+            return false;
+        }
+        *budget -= 1;
+        let cand_ops = repair_ops(cand_ops);
+        if cand_ops.is_empty() {
+            return false;
+        }
+        let mut specs = vec![];
+        // the crash set of the original run stays available to explicit/canonical schedules
+        for mut sch in schedules_to_try(spec["hash_seed"].as_u64().unwrap_or(1), 20) {
+            if sch["mode"] == "canonical" {
+                sch["crash"] = rec["crashed"].clone();
+            }
+            let mut s = spec.clone();
+            s["ops"] = json!(cand_ops);
+            s["sched"] = sch;
+            specs.push(s);
+        }
+        let res = ctx.evaluate(&specs);
+        for (s, (r, fs)) in specs.iter().zip(res) {
+            if let Some(f) = fs.iter().find(|f| f.class == class && f.key == key) {
+                *best = (explicit_spec(s, &r), r, f.clone());
+                return true;
+            }
+        }
+        false
+    };
+    let small = simcore::ddmin(&ops, |cand| try_ops(cand, &mut best, &mut budget));
+    let _ = small;
+    // schedule simplification: prefer "the deciding thread continues" at every decision
+    let (mut spec_b, mut rec_b, mut f_b) = best;
+    let mut choices: Vec<u64> = spec_b["sched"]["choices"].as_array().map(|a| a.iter().map(|v| v.as_u64().unwrap_or(0)).collect()).unwrap_or_default();
+    let decisions: Vec<Value> = rec_b["decisions"].as_array().cloned().unwrap_or_default();
+    let mut i = 0;
+    let mut tries = 0;
+    while i < choices.len() && tries < 60 {
+        let decider = decisions.get(i).and_then(|d| d[1].as_u64()).unwrap_or(0);
+        let code = decisions.get(i).and_then(|d| d[0].as_u64()).unwrap_or(0);
+        if choices[i] != decider && code != 5 {
+            tries += 1;
+            let mut c2 = choices.clone();
+            c2[i] = decider;
+            // everything after the changed decision follows the canonical rule
+            c2.truncate(i + 1);
+            let mut s = spec_b.clone();
+            s["sched"]["choices"] = json!(c2);
+            let mut res = ctx.evaluate(std::slice::from_ref(&s));
+            let (r, fs) = res.pop().unwrap();
+            if let Some(f) = fs.iter().find(|f| f.class == class && f.key == key) {
+                spec_b = explicit_spec(&s, &r);
+                choices = spec_b["sched"]["choices"].as_array().map(|a| a.iter().map(|v| v.as_u64().unwrap_or(0)).collect()).unwrap_or_default();
+                rec_b = r;
+                f_b = f.clone();
+                // decisions may have shifted: restart from this index with the new trace
+                let d2: Vec<Value> = rec_b["decisions"].as_array().cloned().unwrap_or_default();
+                if d2.len() != decisions.len() {
+                    break;
+                }
+            }
+        }
+        i += 1;
+    }
+    (spec_b, rec_b, f_b)
+}
+
+/// The same spec with the schedule the record actually took, made explicit.
+fn explicit_spec(spec: &Value, rec: &Value) -> Value {
+    let mut s = spec.clone();
+    s["sched"] = json!({"mode": "explicit", "choices": rec["choices"], "crash": rec["crashed"]});
+    s
+}
+
+fn write_replay(property: &str, seed: u64, n: u64, spec: &Value, rec: &Value, f: &Finding) -> PathBuf {
+    let body = json!({
+        "engine": "ls-sim",
+        "property": property,
+        "seed": seed.to_string(),
+        "signature": {"class": f.class, "key": f.key},
+        "detail": f.detail,
+        "expected_log_hash": rec["log_hash"],
+        "spec": spec,
+        "observed_out": rec["out"].as_array().map(|a| a.iter().map(|o| {
+            json!({"kind": o["kind"], "by": o["by"], "uri": o["uri"], "version": o["version"], "id": o["id"],
+                   "n_diagnostics": o["diagnostics"].as_array().map(|d| d.len()), "after_msgs": o["after_msgs"]})
+        }).collect::<Vec<_>>()),
+        "threads": rec["threads"],
+        "main": rec["main"],
+    });
+    simcore::write_replay(property, seed, n, &body).unwrap_or_else(|e| harness_error(&format!("cannot write replay: {e}")))
+}
+
+fn replay(ctx: &Ctx, path: &Path) -> i32 {
+    let v = simcore::read_json(path).unwrap_or_else(|e| harness_error(&e));
+    let spec = v["spec"].clone();
+    let mut res = ctx.evaluate(std::slice::from_ref(&spec));
+    let (rec, fs) = res.pop().unwrap();
+    if rec.get("harness_error").is_some() || rec["watchdog"].as_bool() == Some(true) {
+        harness_error(&format!("replay run failed: {}", rec["harness_error"]));
+    }
+    let class = v["signature"]["class"].as_str().unwrap_or("");
+    let key = v["signature"]["key"].as_str().unwrap_or("");
+    let same = fs.iter().find(|f| f.class == class && f.key == key);
+    let hash_match = rec["log_hash"] == v["expected_log_hash"];
+    if let Some(f) = same {
+        println!(
+            "replay: reproduced {} {} ({}); event log hash {} the recorded one{}",
+            f.class,
+            f.key,
+            f.detail,
+            if hash_match { "matches" } else { "DIFFERS from" },
+            if rec["explicit_mismatch"].as_bool() == Some(true) { " (explicit schedule had to fall back)" } else { "" }
+        );
+        println!("VIOLATION property={} replay={}", ctx.property, path.display());
+        simcore::EXIT_VIOLATION
+    } else if let Some(f) = fs.first() {
+        println!("replay: a different violation appears: {} {} ({})", f.class, f.key, f.detail);
+        println!("VIOLATION property={} replay={}", ctx.property, path.display());
+        simcore::EXIT_VIOLATION
+    } else {
+        println!("replay: not reproduced - the property holds on this history and schedule");
+        simcore::EXIT_OK
+    }
+}
+
+// ---------------------------------------------------------------------------
+// batches
+// ---------------------------------------------------------------------------
+
+fn scale() -> f64 {
+    std::env::var("VERIF_SCALE").ok().and_then(|s| s.parse().ok()).unwrap_or(1.0)
+}
+
+fn gen_specs(property: &str, seed: u64, tier: Tier, corpus: &Corpus, n: usize) -> Vec<Value> {
+    let mut specs = Vec::with_capacity(n);
+    for i in 0..n {
+        let mut spec = if property == "C29" {
+            let mut rng = Rng::for_run(seed, ENGINE_C29, i as u64);
+            // swarm: a third of the runs are short histories on one document, fault free
+            let shape = rng.below(6);
+            let cfg = match shape {
+                0 | 1 => C29Config { max_docs: 1, max_edits: 3, faulty: false },
+                2 => C29Config { max_docs: 2, max_edits: 5, faulty: false },
+                3 => C29Config { max_docs: 1, max_edits: 4, faulty: true },
+                _ => C29Config { max_docs: 3, max_edits: if tier == Tier::Thorough { 12 } else { 8 }, faulty: true },
+            };
+            workload::gen_c29(&mut rng, corpus, &cfg)
+        } else {
+            let mut rng = Rng::for_run(seed, ENGINE_C30, i as u64);
+            let cfg = match rng.below(3) {
+                0 => C30Config { max_docs: 1, max_edits: 1, max_requests: 6 },
+                1 => C30Config { max_docs: 2, max_edits: 4, max_requests: 12 },
+                _ => C30Config { max_docs: 3, max_edits: 8, max_requests: 20 },
+            };
+            workload::gen_c30(&mut rng, corpus, &cfg)
+        };
+        spec["run"] = json!(i);
+        specs.push(spec);
+    }
+    specs
+}
+
+fn spec_sample(spec: &Value) -> Value {
+    let ops: Vec<Value> = spec["ops"]
+        .as_array()
+        .into_iter()
+        .flatten()
+        .map(|o| {
+            let mut m = serde_json::Map::new();
+            for k in ["t", "uri", "version", "src", "class", "method", "id", "pclass"] {
+                if !o[k].is_null() {
+                    m.insert(k.into(), o[k].clone());
+                }
+            }
+            if let Some(p) = o["params"].get("position") {
+                m.insert("position".into(), p.clone());
+            }
+            Value::Object(m)
+        })
+        .collect();
+    json!({"run": spec["run"], "max_k": spec["max_k"], "sched": spec["sched"], "ops": ops})
+}
+
+fn run_batch(ctx: &Ctx, tier: Tier, corpus: &Corpus, emit_log: Option<&Path>) -> i32 {
+    let t0 = std::time::Instant::now();
+    let seed = simcore::env_seed();
+    let property = ctx.property.as_str();
+    let n = match (property, tier) {
+        ("C29", Tier::Quick) => 1500,
+        ("C29", Tier::Thorough) => 40_000,
+        (_, Tier::Quick) => 1000,
+        (_, Tier::Thorough) => 30_000,
+    };
+    let n = ((n as f64) * scale()) as usize;
+    let specs = gen_specs(property, seed, tier, corpus, n.max(1));
+    println!(
+        "ls-sim: property={property} tier={} seed={seed} runs={} executors={} corpus={} texts",
+        tier.as_str(),
+        specs.len(),
+        ctx.pool.workers,
+        corpus.texts.len()
+    );
+    let recs = ctx.pool.run(&specs);
+
+    // harness-level problems first: they are never verdicts
+    let mut harness_problems = 0;
+    for r in &recs {
+        if r.get("harness_error").is_some() || r["watchdog"].as_bool() == Some(true) {
+            harness_problems += 1;
+            if harness_problems <= 3 {
+                println!("HARNESS-ERROR: run {}: {} watchdog={}", r["run"], r["harness_error"], r["watchdog"]);
+            }
+        }
+    }
+
+    let mut log = Fnv::new();
+    let mut log_lines = vec![];
+    for r in &recs {
+        let l = format!("{} {}", r["run"], r["log_hash"].as_str().unwrap_or("-"));
+        log.write_str(&l);
+        log_lines.push(l);
+    }
+    if let Some(p) = emit_log {
+        let _ = std::fs::write(p, log_lines.join("\n") + "\n");
+    }
+    let dry = emit_log.is_some();
+
+    let mut all: Vec<(usize, Finding)> = vec![];
+    let mut ev = Evidence::new(property, tier, seed);
+    let mut sim_time_us = 0u64;
+    let mut steps = 0u64;
+    let mut strategies: BTreeMap<String, u64> = BTreeMap::new();
+    for (s, r) in specs.iter().zip(recs.iter()) {
+        sim_time_us += r["sim_time_us"].as_u64().unwrap_or(0);
+        steps += r["steps"].as_u64().unwrap_or(0);
+        let st = s["sched"]["strategy"].as_str().unwrap_or(s["sched"]["mode"].as_str().unwrap_or("?"));
+        *strategies.entry(st.to_string()).or_default() += 1;
+    }
+    if property == "C29" {
+        // reference runs
+        let mut refs: BTreeMap<String, Value> = BTreeMap::new();
+        let mut ref_specs = vec![];
+        let mut ref_keys = vec![];
+        for s in &specs {
+            for (k, rs) in needed_refs(s) {
+                if !refs.contains_key(&k) {
+                    refs.insert(k.clone(), Value::Null);
+                    ref_keys.push(k);
+                    ref_specs.push(rs);
+                }
+            }
+        }
+        let ref_recs = ctx.pool.run(&ref_specs);
+        for (k, r) in ref_keys.into_iter().zip(ref_recs) {
+            refs.insert(k, r);
+        }
+        let mut st = C29Stats {
+            uri_checks: 0,
+            reference_crash: 0,
+            main_crash: 0,
+            stale_completion: 0,
+            fast_completion: 0,
+            overlap2: 0,
+            bg_crash: 0,
+            bg_crash_final: 0,
+            bg_panic: 0,
+            signatures: BTreeSet::new(),
+            nontrivial_signatures: BTreeSet::new(),
+        };
+        for (i, (s, r)) in specs.iter().zip(recs.iter()).enumerate() {
+            if r.get("harness_error").is_some() || r["watchdog"].as_bool() == Some(true) {
+                continue;
+            }
+            for f in check_c29(s, r, &refs, Some(&mut st)) {
+                all.push((i, f));
+            }
+        }
+        ev.evaluations = st.uri_checks;
+        ev.distinct_nontrivial = st.nontrivial_signatures.len() as u64;
+        ev.rule = "one evaluation = one per-document check 'last published diagnostics == diagnostics of a single-edit reference run of the final text, tagged with the final version' after quiescence of a simulated history (1-3 documents, up to 8/12 open/change notifications, seeded thread schedule of the real main loop and analysis threads). distinct_nontrivial = distinct publish-order signatures (sequence of (publisher M/B, document, version rank, empty/non-empty)) that contain at least one background publish out of canonical position (after a later edit of the same document was handled, or before the main thread's own publish of that version).".into();
+        ev.set("distinct_publish_order_signatures", json!(st.signatures.len()));
+        ev.set("reference_runs", json!(refs.len()));
+        ev.set("probes", json!({
+            "stale_completion": st.stale_completion, "fast_completion": st.fast_completion,
+            "runs_with_overlap_ge_2": st.overlap2, "bg_crash_final": st.bg_crash_final,
+            "main_crash_no_verdict": st.main_crash, "reference_crash_no_verdict": st.reference_crash,
+            "bg_thread_panics_not_injected": st.bg_panic,
+        }));
+        ev.set("faults_fired", json!({
+            "slow_or_stalled_analysis(publish after a later edit)": st.stale_completion,
+            "fast_analysis(publish before main's own)": st.fast_completion,
+            "overlapping_analyses(runs)": st.overlap2,
+            "analysis_crash": st.bg_crash,
+        }));
+    } else {
+        let mut st = C30Stats {
+            requests: 0,
+            responses_ok: 0,
+            notification_panics: BTreeMap::new(),
+            cells: BTreeSet::new(),
+            result_kinds: BTreeMap::new(),
+        };
+        for (i, (s, r)) in specs.iter().zip(recs.iter()).enumerate() {
+            if r.get("harness_error").is_some() || r["watchdog"].as_bool() == Some(true) {
+                continue;
+            }
+            for f in check_c30(s, r, Some(&mut st)) {
+                all.push((i, f));
+            }
+        }
+        ev.evaluations = st.requests;
+        ev.distinct_nontrivial = st.cells.len() as u64;
+        ev.rule = "one evaluation = one request (hover, definition, documentSymbol, prepareRename, rename, formatting, codeAction) handled by the real main loop in a simulated history of opens/changes/configuration changes with in-flight analyses; checked: no panic, exactly one non-error response, main loop ends Ok. distinct_nontrivial = distinct cells (request kind x class of the document text at that moment x position class) that were answered.".into();
+        ev.set("responses_ok", json!(st.responses_ok));
+        ev.set("result_kinds", json!(st.result_kinds));
+        ev.set("notification_panics_no_verdict", json!(st.notification_panics));
+        for (k, n) in &st.notification_panics {
+            println!("INFO: main loop crashed while handling a notification (outside C30's letter, no verdict): {k} ({n}x)");
+        }
+        let mut ff: BTreeMap<String, u64> = BTreeMap::new();
+        let mut crashes = 0u64;
+        let mut inflight = 0u64;
+        for r in &recs {
+            crashes += r["crashed"].as_array().map(|a| a.len() as u64).unwrap_or(0);
+            if r["max_live_bg"].as_u64().unwrap_or(0) >= 1 {
+                inflight += 1;
+            }
+        }
+        ff.insert("analysis_crash".into(), crashes);
+        ff.insert("runs_with_analysis_in_flight_during_requests".into(), inflight);
+        ev.set("faults_fired", json!(ff));
+    }
+
+    // group findings by (class, key); known findings are reported, everything else is a violation
+    let known = simcore::load_known_findings(property);
+    let mut groups: BTreeMap<(String, String), Vec<usize>> = BTreeMap::new();
+    for (i, f) in &all {
+        groups.entry((f.class.clone(), f.key.clone())).or_default().push(*i);
+    }
+    let mut violations = 0u64;
+    let mut known_seen: BTreeMap<String, u64> = BTreeMap::new();
+    let mut n_replay = 0u64;
+    for ((class, key), runs) in &groups {
+        if let Some(k) = known.iter().find(|k| k.status == "open" && &k.class == class && (&k.key == key || k.key.is_empty() && key.is_empty())) {
+            known_seen.insert(format!("{class} {key} :: {}", k.what), runs.len() as u64);
+            continue;
+        }
+        violations += runs.len() as u64;
+        if dry {
+            continue;
+        }
+        // minimise the shortest failing history of this group
+        let &i = runs
+            .iter()
+            .min_by_key(|i| specs[**i]["ops"].as_array().map(|a| a.len()).unwrap_or(0))
+            .unwrap();
+        let f = all.iter().find(|(j, f)| *j == i && &f.class == class && &f.key == key).map(|(_, f)| f.clone()).unwrap();
+        let (ms, mr, mf) = minimise(ctx, &specs[i], &recs[i], &f);
+        let path = write_replay(property, seed, n_replay, &ms, &mr, &mf);
+        n_replay += 1;
+        println!(
+            "violation: {class} {key} in {} run(s); run {i} minimised from {} to {} ops: {}",
+            runs.len(),
+            specs[i]["ops"].as_array().map(|a| a.len()).unwrap_or(0),
+            ms["ops"].as_array().map(|a| a.len()).unwrap_or(0),
+            mf.detail
+        );
+        println!("VIOLATION property={property} replay={}", path.display());
+    }
+    for (k, n) in &known_seen {
+        println!("KNOWN-FINDING: property={property} {k} (seen in {n} runs)");
+    }
+
+    let wall = t0.elapsed().as_secs_f64();
+    let total_runs = ctx.pool.runs.load(std::sync::atomic::Ordering::Relaxed);
+    ev.samples = specs.iter().take(2).map(spec_sample).collect();
+    ev.violations = violations;
+    ev.wall_s = wall;
+    ev.set("runs", json!(specs.len()));
+    ev.set("executor_runs_incl_reference_classification_minimisation", json!(total_runs));
+    ev.set("runs_per_hour", json!((specs.len() as f64 / wall.max(0.001) * 3600.0) as u64));
+    ev.set("sim_time_ms", json!(sim_time_us / 1000));
+    ev.set("sched_steps", json!(steps));
+    ev.set("strategies", json!(strategies));
+    ev.set("event_log_hash", json!(log.hex()));
+    ev.set("harness_problems", json!(harness_problems));
+    ev.set("executor_restarts", json!(ctx.pool.restarts.load(std::sync::atomic::Ordering::Relaxed)));
+    ev.set("known_findings_seen", json!(known_seen));
+    ev.set("corpus_texts", json!(corpus.texts.len()));
+    let mut class_hist: BTreeMap<String, u64> = BTreeMap::new();
+    for c in corpus.classes.values() {
+        *class_hist.entry(c.class.clone()).or_default() += 1;
+    }
+    ev.set("corpus_classes(text x max_k)", json!(class_hist));
+    ev.set("real_components", json!([
+        "parol-ls main_loop, process_notification, request dispatch, handler.rs, server.rs, document_state.rs, parol_ls_grammar.rs, generated LS parser, diagnostics.rs, formatter (built from /repo with --cfg parol_verif, dev profile)",
+        "parol analysis (check_and_transform_grammar, calculate_lookahead_dfas, calculate_lalr1_parse_table)",
+        "lsp_server::Connection::memory + lsp_types (de)serialisation",
+        "real OS threads for the main loop and every analysis thread (released one at a time)",
+    ]));
+    ev.set("stubbed_components", json!(["stdio/TCP transport and the editor (the simulator is the client)", "OS entropy for RandomState keys (getrandom seam)", "stderr (to /dev/null)"]));
+    ev.assumptions = vec![
+        "threads interact only at intercepted points (message boundary, spawn, thread start/exit, modelled locks, publish); bare atomics would need further points".into(),
+        "protocol-conforming client: no request/change for a document that is not open".into(),
+    ];
+    if !dry {
+        if let Err(e) = ev.write() {
+            harness_error(&format!("cannot write evidence: {e}"));
+        }
+    }
+    println!(
+        "ls-sim: {} runs ({} executor runs) in {:.1}s, {} evaluations, {} distinct non-trivial, violations {}, log={}",
+        specs.len(), total_runs, wall, ev.evaluations, ev.distinct_nontrivial, violations, log.hex()
+    );
+    if harness_problems > 0 {
+        println!("HARNESS-ERROR: {harness_problems} run(s) did not complete (watchdog / executor failure)");
+        return simcore::EXIT_HARNESS;
+    }
+    if violations > 0 {
+        simcore::EXIT_VIOLATION
+    } else {
+        println!("OK property={property} held on everything explored");
+        simcore::EXIT_OK
+    }
+}
+
+fn run_selfcheck(exe: &Path, executor: &Path, property: &str) -> i32 {
+    let dir = simcore::verif_root().join("scratch").join("ls-selfcheck").join(std::process::id().to_string());
+    let _ = std::fs::create_dir_all(&dir);
+    let mut logs = vec![];
+    for (n, workers) in [(0, "16"), (1, "1")] {
+        let log = dir.join(format!("log-{n}.txt"));
+        let st = std::process::Command::new(exe)
+            .args(["--property", property, "--tier", "quick", "--executor"])
+            .arg(executor)
+            .arg("--emit-log")
+            .arg(&log)
+            .env("VERIF_WORKERS", workers)
+            .env("VERIF_SCALE", "0.7")
+            .stdout(std::process::Stdio::null())
+            .status();
+        match st {
+            Ok(s) if matches!(s.code(), Some(0) | Some(1)) => {}
+            other => harness_error(&format!("selfcheck child failed: {other:?}")),
+        }
+        logs.push(std::fs::read_to_string(&log).unwrap_or_default());
+    }
+    let _ = std::fs::remove_dir_all(&dir);
+    if logs[0].is_empty() || logs[0] != logs[1] {
+        let diff = logs[0].lines().zip(logs[1].lines()).filter(|(a, b)| a != b).count();
+        println!("HARNESS-ERROR: determinism self-check failed: {diff} of {} run logs differ between two processes", logs[0].lines().count());
+        return simcore::EXIT_HARNESS;
+    }
+    println!("selfcheck: {} run logs identical across two process sets (16 vs 1 executors)", logs[0].lines().count());
+    simcore::EXIT_OK
+}
+
+fn main() {
+    let args: Vec<String> = std::env::args().collect();
+    let mut tier = simcore::env_tier();
+    let mut property = String::from("C29");
+    let mut executor = simcore::verif_root().join("target-ls/debug/parol-ls");
+    let mut replay_file: Option<PathBuf> = None;
+    let mut emit_log: Option<PathBuf> = None;
+    let mut selfcheck = false;
+    let mut i = 1;
+    while i < args.len() {
+        match args[i].as_str() {
+            "--tier" => {
+                i += 1;
+                tier = if args.get(i).map(|s| s.as_str()) == Some("thorough") { Tier::Thorough } else { Tier::Quick };
+            }
+            "--property" => {
+                i += 1;
+                property = args.get(i).cloned().unwrap_or_default();
+            }
+            "--executor" => {
+                i += 1;
+                executor = args.get(i).map(PathBuf::from).unwrap_or(executor);
+            }
+            "--replay" => {
+                i += 1;
+                replay_file = args.get(i).map(PathBuf::from);
+            }
+            "--emit-log" => {
+                i += 1;
+                emit_log = args.get(i).map(PathBuf::from);
+            }
+            "--selfcheck" => selfcheck = true,
+            other => harness_error(&format!("unknown argument {other}")),
+        }
+        i += 1;
+    }
+    if property != "C29" && property != "C30" {
+        harness_error("property must be C29 or C30");
+    }
+    if !executor.exists() {
+        harness_error(&format!("executor {} missing", executor.display()));
+    }
+    if selfcheck {
+        let exe = std::env::current_exe().unwrap();
+        std::process::exit(run_selfcheck(&exe, &executor, &property));
+    }
+    let pool = Pool::new(executor, simcore::env_workers());
+    let ctx = Ctx { pool: &pool, property: property.clone() };
+    if let Some(p) = replay_file {
+        std::process::exit(replay(&ctx, &p));
+    }
+    let mut corpus = workload::load_corpus(2500);
+    classify(&pool, &mut corpus);
+    let code = run_batch(&ctx, tier, &corpus, emit_log.as_deref());
+    std::process::exit(code);
+}
